@@ -273,6 +273,32 @@ def run_tlc(module, cfg, workers=None, timeout=900, extra=(), defines=None, sink
     return res
 
 
+def run_tlapm(module, timeout=900):
+    """Checks spec/proofs/<module>.tla with the TLA+ proof system in a scratch copy of the specification.  Returns the number of proof
+    obligations; anything but 'All N obligations proved' is INFRA (a proof speaks about the specification, never about the code)."""
+    d = new_scratch("tlapm")
+    specdir = os.path.join(VERIF, "spec")
+    for sub in (specdir, os.path.join(specdir, "proofs")):
+        for f in os.listdir(sub):
+            if f.endswith(".tla"):
+                shutil.copy(os.path.join(sub, f), d)
+    try:
+        p = subprocess.run(["tlapm", "--threads", str(NCPU), "--cleanfp", module + ".tla"], cwd=d, capture_output=True, text=True,
+                           timeout=timeout, errors="replace")
+        out = p.stdout + p.stderr
+    except FileNotFoundError:
+        shutil.rmtree(d, ignore_errors=True)
+        raise Infra("tlapm is not installed")
+    except subprocess.TimeoutExpired:
+        shutil.rmtree(d, ignore_errors=True)
+        raise Infra("tlapm timed out after %ds on %s" % (timeout, module))
+    shutil.rmtree(d, ignore_errors=True)
+    m = re.search(r"All (\d+) obligations? proved", out)
+    if p.returncode != 0 or not m:
+        raise Infra("tlapm could not check %s:\n%s" % (module, out[-1500:]))
+    return int(m.group(1))
+
+
 def sany(module):
     d = new_scratch("sany")
     specdir = os.path.join(VERIF, "spec")
